@@ -87,6 +87,26 @@ FLOORS = {
 # default) once the repair / the known finding `relational/MatrixUnionCols-type-differs-from-engine-rule` is registered.
 UNION_COLS_IN_WORKLOAD = os.environ.get('VERIF_C36_UNION_COLS', '1') == '1'
 
+# Table.multi_way_zip_join in the wide table workload.  OFF by default: on the unchanged tree it witnesses a GENUINE disagreement between
+# the reported type and the IR that is sent (TableMultiWayZipJoin._handle_randomness with a uid requested inserts the uid as a VALUE
+# field into every child, so the elements of the `data` array carry `__row_uid` / `__uid`; see the M7 validation record at the bottom).
+# Turn on (VERIF_C36_MULTI_WAY_ZIP_JOIN=1, or flip the default) once the repair / a known finding
+# `sent-ir/...` is registered.
+MULTI_WAY_ZIP_JOIN_IN_WORKLOAD = os.environ.get('VERIF_C36_MULTI_WAY_ZIP_JOIN', '0') == '1'
+
+# Randomness-consuming table operations on top of MatrixTable.entries() in the wide table workload.  OFF by default for the same reason:
+# MatrixEntriesTable._handle_randomness with a uid requested asks its child for `__col_uid` and never drops it, so
+# `mt.entries().filter(hl.rand_bool(.5))` / `.sample(p)` / `.annotate(r=hl.rand_unif(0, 1))` send a table whose rows carry an extra
+# `__col_uid` field (VERIF_C36_ENTRIES_UNDER_RANDOMNESS=1 to turn on; see the M7 validation record at the bottom).
+ENTRIES_UNDER_RANDOMNESS_IN_WORKLOAD = os.environ.get('VERIF_C36_ENTRIES_UNDER_RANDOMNESS', '0') == '1'
+
+# Seeded randomness in the KEY expression of Table.group_by(...).aggregate(...) in the wide table workload.  OFF by default, same reason:
+# TableKeyByAndAggregate._handle_randomness assigns the re-bound key expression to `expr` instead of `new_key`
+# (`expr = ir.Let('__rng_state', ..., new_key)`), so the node that is sent aggregates the KEY: its row type is key ++ key (the engine's
+# `keyType ++ expr.typ` rejects the overlap) and every aggregated field the front end reports is gone
+# (VERIF_C36_RANDOM_GROUP_KEY=1 to turn on; see the M7 validation record at the bottom).
+RANDOM_GROUP_KEY_IN_WORKLOAD = os.environ.get('VERIF_C36_RANDOM_GROUP_KEY', '0') == '1'
+
 # IR classes whose "rule" merely returns a type stored at construction (no derivation from children)
 VACUOUS = {'Ref', 'TopLevelReference', 'Apply', 'ApplySeeded', 'NA', 'Literal', 'EncodedLiteral', 'Cast', 'Die', 'Recur', 'JavaIR',
            'SelectedTopLevelReference', 'ProjectedTopLevelReference'}
@@ -327,7 +347,7 @@ class _Skip(Exception):
 # M2: walk over emitted IR with the repository's binding metadata
 # =================================================================================================
 class Walker:
-    def __init__(self, ctx, hl):
+    def __init__(self, ctx, hl, sent=False):
         self.ctx = ctx
         self.hl = hl
         import hail.ir as ir
@@ -335,15 +355,21 @@ class Walker:
         self.ir = ir
         self.problems = []
         self.budget = 0
+        # sent=True: the walk is over the IR as REWRITTEN for an action (handle_randomness).  There a binder may legitimately provide
+        # a struct with extra (row / col uid) fields to a `Ref` whose declared type predates the rewrite -- the declared type of a
+        # Ref is not part of what is sent -- as long as the reference is only projected from (GetField / SelectFields); a reference
+        # whose WHOLE value flows on would carry the uid field into a value the front end typed without it.
+        self.sent = sent
 
     def walk(self, root):
         self.memo = set()
         self.budget = 60000
         self._walk(root, ({}, None, None))
 
-    def _walk(self, x, c):
+    def _walk(self, x, c, projected=False):
         ir = self.ir
-        key = (id(x), id(c[0]), id(c[1]), id(c[2]))
+        projected = projected and self.sent
+        key = (id(x), id(c[0]), id(c[1]), id(c[2]), projected)
         if key in self.memo:
             return
         self.memo.add(key)
@@ -361,7 +387,14 @@ class Walker:
                 if declared is not None:
                     ctx.count('contract_ref_binder')
                     if declared != env[x.name]:
-                        self.problems.append((f'ref/type-differs-from-binder', f'Ref {x.name} is declared {declared} but its binder provides {env[x.name]}', x))
+                        if self.sent and _only_extra_fields(self.hl, declared, env[x.name]):
+                            if projected:
+                                ctx.count('ref_binder_has_extra_uid_fields_projected_away')
+                            else:
+                                self.problems.append(('ref/whole-struct-reference-sees-fields-added-by-the-rewrite',
+                                                      f'Ref {x.name} was typed {declared} by the front end; in the rewritten IR its binder provides {env[x.name]} and the whole value is used', x))
+                        else:
+                            self.problems.append((f'ref/type-differs-from-binder', f'Ref {x.name} is declared {declared} but its binder provides {env[x.name]}', x))
             else:
                 ctx.count('ref_not_resolved_by_metadata')
                 ctx.seen('unresolved_ref_kinds', ('toplevel ' if isinstance(x, ir.TopLevelReference) else 'var ') + ('agg_capability' if x.name == 'agg_capability' else x.name.rstrip('0123456789')))
@@ -394,7 +427,7 @@ class Walker:
                     ctx.count('child_context_failed')
                     ctx.seen('child_context_failures', cls + ': ' + type(err).__name__ + ' ' + str(err)[:60])
                     continue
-                self._walk(ch, cc)
+                self._walk(ch, cc, isinstance(x, (ir.GetField, ir.SelectFields)))
         if isinstance(x, ir.Join):
             return
         # the node's own rule, re-applied now
@@ -644,6 +677,103 @@ def _tk(hl, ty):
             hl.tstruct(a=hl.tint32, b=hl.tfloat64, c=hl.tarray(hl.tint32)): 'st', hl.ttuple(hl.tint32, hl.tfloat64): 'tu'}.get(ty)
 
 
+class _Prefixed:
+    """counters / seen-sets of the walks over the SENT (rewritten) IR are kept apart from those of the emitted IR, so that the floors
+    of the emitted-IR contracts keep measuring what they measured"""
+
+    def __init__(self, ctx, prefix):
+        self._ctx, self._p = ctx, prefix
+
+    def count(self, name, n=1):
+        self._ctx.count(self._p + name, n)
+
+    def seen(self, family, value):
+        self._ctx.seen(self._p + family, value)
+
+
+def _only_extra_fields(hl, declared, bound):
+    """`bound` is `declared` plus extra fields (the common fields in the same order with the same types)"""
+    if not (isinstance(declared, hl.tstruct) and isinstance(bound, hl.tstruct)):
+        return False
+    if len(bound) <= len(declared) or any(f not in bound for f in declared):
+        return False
+    return [(f, t) for f, t in bound.items() if f in declared] == list(declared.items())
+
+
+def _without_uid_fields(hl, t):
+    """`t` with every struct field named like a uid of the randomness rewrite (`__row_uid`, `__col_uid`, `__uid`, `__left_uid`, `__uid_7` ...)
+    removed, recursively -- used only to CLASSIFY a disagreement (never to excuse one)"""
+    if isinstance(t, hl.tstruct):
+        return hl.tstruct(**{f: _without_uid_fields(hl, x) for f, x in t.items() if not (f.startswith('__') and 'uid' in f)})
+    if isinstance(t, hl.tarray):
+        return hl.tarray(_without_uid_fields(hl, t.element_type))
+    if isinstance(t, hl.tset):
+        return hl.tset(_without_uid_fields(hl, t.element_type))
+    if isinstance(t, hl.tdict):
+        return hl.tdict(_without_uid_fields(hl, t.key_type), _without_uid_fields(hl, t.value_type))
+    if isinstance(t, hl.ttuple):
+        return hl.ttuple(*[_without_uid_fields(hl, x) for x in t.types])
+    return t
+
+
+def randomized(rng, hl, e):
+    """an expression of the SAME type as `e` that contains seeded randomness (value level; for arrays also inside stream bodies, which
+    the front end elaborates with its stream-level `handle_randomness`)"""
+    T = hl
+    t = e.dtype
+    coin = lambda: T.rand_bool(rng.choice([0.3, 0.5]))  # noqa: E731
+    generic = [lambda: T.if_else(coin(), e, e), lambda: T.or_missing(coin(), e), lambda: T.if_else(coin(), e, T.missing(t)),
+               lambda: T.bind(lambda c: T.if_else(c, e, e), coin())]
+    if t == T.tbool:
+        opts = [lambda: e & coin(), lambda: coin() | e, lambda: T.if_else(coin(), e, ~e), lambda: T.rand_bool(0.5, seed=rng.randint(0, 9))]
+    elif t == T.tint32:
+        opts = [lambda: e + T.rand_int32(5), lambda: T.if_else(coin(), e, T.rand_int32(1, 4)), lambda: e + T.rand_cat([0.2, 0.8]),
+                lambda: e + T.sum(T.range(3).map(lambda i: i * T.rand_int32(4))), lambda: e * T.rand_hyper(10, 4, 3),
+                lambda: e + T.fold(lambda a, x: a + x + T.rand_int32(2), 0, T.range(2)), lambda: e + T.len(T.filter(lambda x: coin(), T.range(4)))]
+    elif t == T.tint64:
+        opts = [lambda: e + T.rand_int64(5), lambda: T.if_else(coin(), e, T.rand_int64()), lambda: e + T.int64(T.rand_int32(3))]
+    elif t == T.tfloat64:
+        opts = [lambda: e * T.rand_unif(0.0, 1.0), lambda: e + T.rand_norm(0, 1), lambda: e + T.rand_pois(2.0), lambda: e * T.rand_beta(1.0, 2.0),
+                lambda: e + T.rand_gamma(1.0, 2.0), lambda: e + T.rand_unif(0.0, 1.0, seed=rng.randint(0, 9)), lambda: e + T.sum(T.rand_dirichlet([1.0, 2.0])),
+                lambda: e + T.rand_norm(size=2)[0]]
+    elif t == T.tstr:
+        opts = [lambda: e + T.str(T.rand_int32(9)), lambda: T.if_else(coin(), e, T.str(T.rand_unif(0.0, 1.0)))]
+    elif isinstance(t, T.tarray):
+        et_ = t.element_type
+        opts = [lambda: e.map(lambda x: T.if_else(coin(), x, x)), lambda: T.filter(lambda x: coin(), e), lambda: T.shuffle(e),
+                lambda: e.flatmap(lambda x: T.if_else(coin(), [x], [x, x])), lambda: T.sorted(e, key=lambda x: T.rand_unif(0.0, 1.0)),
+                lambda: T.zip(e, e).map(lambda p: T.if_else(coin(), p[0], p[1])), lambda: e[: T.rand_int32(3)],
+                lambda: T.zip_with_index(e).map(lambda p: T.if_else(coin(), p[1], p[1])), lambda: T.map(lambda x, y: T.if_else(coin(), x, y), e, e)]
+        if et_ == T.tint32:
+            opts += [lambda: e.map(lambda x: x + T.rand_int32(3)), lambda: T.array_scan(lambda a, x: a + x + T.rand_int32(2), 0, e),
+                     lambda: T.range(T.rand_int32(1, 4)).map(lambda i: i + T.rand_int32(2)), lambda: e.extend(T.rand_multi_hyper([2, 3], 2)),
+                     lambda: e.append(T.fold(lambda a, x: a + x * T.rand_int32(3), 0, e)), lambda: e.map(lambda x: T.sum(T.range(2).map(lambda i: i + x + T.rand_int32(2))))]
+        elif et_ == T.tfloat64:
+            opts += [lambda: e.map(lambda x: x * T.rand_unif(0.0, 1.0)), lambda: e.extend(T.rand_unif(0.0, 1.0, size=2)), lambda: e.extend(T.rand_dirichlet([1.0, 2.0])),
+                     lambda: e.extend(T.rand_norm2d([0.0, 1.0], [1.0, 0.0, 0.0, 1.0]))]
+        elif isinstance(et_, T.tarray):
+            opts += [lambda: e.map(lambda x: T.filter(lambda y: coin(), x)), lambda: e.map(lambda x: T.shuffle(x))]
+    elif isinstance(t, T.tstruct) and len(t) > 0:
+        f0 = list(t)[0]
+        opts = [lambda: e.annotate(**{f0: T.if_else(coin(), e[f0], e[f0])}), lambda: T.if_else(coin(), e, e)]
+    else:
+        opts = []
+    return rng.choice(opts + generic[: 2 if opts else 4])()
+
+
+def random_aggs(rng, hl, ae, scan=False):
+    """aggregations (or scans) over the numeric expression `ae` that contain seeded randomness, by name"""
+    A = hl.scan if scan else hl.agg
+    coin = lambda: hl.rand_bool(0.5)  # noqa: E731
+    out = {
+        'rf': lambda: A.filter(coin(), A.count()), 'rs': lambda: A.sum(ae * hl.rand_int32(1, 3)), 'rc': lambda: A.collect(ae + hl.rand_int32(2)),
+        'rg': lambda: A.group_by(coin(), A.count()), 'rm': lambda: A.max(hl.rand_unif(0.0, 1.0)), 'rw': lambda: A.count_where(coin()),
+        'rx': lambda: A.explode(lambda v: A.sum(v + hl.rand_int32(2)), hl.range(2)), 'ra': lambda: A.array_agg(lambda v: A.sum(v + hl.rand_int32(2)), hl.range(2)),
+        'rt': lambda: A.take(hl.rand_int32(5), 2), 'rv': lambda: A.count() + hl.rand_int32(3),   # value-level randomness around an aggregation
+    }
+    return out
+
+
 def run(ctx):
     import linecache
     import sys
@@ -657,14 +787,33 @@ def run(ctx):
     from vf.hail_fake_backend import BackendUnavailable, install
     from vf.hail_relational_rules import EngineTyper, RefM, RefT
 
-    install()
+    backend = install()
+    # `MatrixRead._compute_type` ASKS THE ENGINE for its type when uids are kept (`Env.backend().matrix_type(self)`), which every
+    # rewrite of a range_matrix_table pipeline that needs row / col uids does.  The engine's answer for the range reader is fixed
+    # (MatrixIR.scala MatrixReader.fullMatrixType + Parser.scala "MatrixRead" DropRowUIDs / DropColUIDs) and given here; any other
+    # reader still raises BackendUnavailable.
+    engine_matrix_type = backend.matrix_type
+
+    def matrix_type(mir):
+        if isinstance(mir, ir.MatrixRead) and type(mir.reader).__name__ == 'MatrixRangeReader':
+            ctx.count('engine_answers_matrix_range_type')
+            row, col = {'row_idx': hl.tint32}, {'col_idx': hl.tint32}
+            if not mir.drop_row_uids:
+                row['__row_uid'] = hl.tint64
+            if not mir.drop_col_uids:
+                col['__col_uid'] = hl.tint64
+            return hl.tmatrix(hl.tstruct(), hl.tstruct(**col), ['col_idx'], hl.tstruct(**row), ['row_idx'], hl.tstruct())
+        return engine_matrix_type(mir)
+
+    backend.matrix_type = matrix_type
     sys.setrecursionlimit(20000)
     linecache.checkcache = lambda filename=None: None  # see c35.py: only affects stack-trace text freshness
 
     hook = Hook(ctx)
     hook.install()
     et = EngineTyper(hl, ir, ctx.count, ctx.seen)
-    REJECT = (TypeError, ExpressionException, ValueError, NotImplementedError, LookupError, AttributeError, hl.utils.java.HailUserError)  # (LookupError: KeyError, IndexError, 'no field ...')
+    REJECT = (TypeError, ExpressionException, ValueError, NotImplementedError, LookupError, AttributeError, hl.utils.java.HailUserError,
+              hl.utils.java.FatalError)  # (LookupError: KeyError, IndexError, 'no field ...'; FatalError: 'TableMapPartitions does not support randomness ... in consumers')
 
     # ---- shared plumbing -----------------------------------------------------------------------
     def triage_assert(err, what):
@@ -737,10 +886,13 @@ def run(ctx):
                                      f'after {what}: the {"Table" if isinstance(wrapper, RefT) else "MatrixTable"} wrapper differs from the engine rule of its {cls} in {"/".join(parts)} -- {msg}',
                                      {'differing': parts, 'wrapper': True}))
 
-    def finish_program(root, relational, label):
-        """M2 on a finished program"""
+    def finish_program(root, relational, label, rewritten=False):
+        """M2 on a finished program.  rewritten=True: `root` is an ACTION node over a pipeline with seeded randomness, i.e. its relational
+        children are already the rebuilt ones (TableAggregate with a random query asks its child for row uids and its query sees them):
+        references are judged as in the sent-IR walk, and the repository's deep typecheck -- which insists that every `Ref` carries the
+        binder's exact type -- is only counted"""
         engine_check(root, None, label)
-        w = Walker(ctx, hl)
+        w = Walker(ctx, hl, sent=rewritten)
         try:
             w.walk(root)
         except RecursionError:
@@ -748,8 +900,245 @@ def run(ctx):
         for key, what, node in w.problems[:5]:
             hook.pending.append((key, what, {'program': label, 'node': str(node)[:1200]}))
         v = deep_typecheck(ctx, root, relational)
+        if v is not None and rewritten and 'assert self._typ == env[self.name]' in v[1]:
+            ctx.count('deep_typecheck_facility_limit')
+            ctx.seen('deep_typecheck_facility_limits', 'Ref typed before the randomness rewrite added uid fields to its binder')
+            v = None
         if v is not None:
             hook.pending.append((v[0], v[1], {'program': label}))
+
+    # ---- M7: the IR that is actually SENT at an action ---------------------------------------------------
+    # Every action (TableCollect / TableCount / TableWrite / TableGetGlobals: `child.handle_randomness(None)`; TableAggregate with a
+    # random query: `child.handle_randomness(default_row_uid)`; MatrixCount / MatrixWrite: `(None, None)`; MatrixAggregate with a random
+    # query: `(default_row_uid, default_col_uid)`; MatrixRowsTable / MatrixColsTable / CastMatrixToTable under a table action: one uid)
+    # sends the pipeline as REBUILT node by node by the `_handle_randomness` methods, not the tree the wrapper shows.  The type implied by
+    # the rebuilt tree (transcribed engine rules, bottom-up, on the rebuilt nodes) must be the type the front end reports for the table /
+    # matrix table -- exactly, field order included, up to the uid fields that were asked for --, every rebuilt relational node must agree
+    # with its engine rule, every reference inside must be typed as its (rebuilt) binder provides, and the result type of the action node
+    # (what the backend decodes with) must be the reported one.
+    from hail.ir.utils import default_col_uid, default_row_uid
+    from hail.utils.java import FatalError
+
+    from vf.hail_relational_rules import canon
+
+    sctx = _Prefixed(ctx, 'sent_')
+    et_sent = EngineTyper(hl, ir, sctx.count, sctx.seen)
+
+    def node_kinds(root):
+        """relational node kinds of a pipeline, with the value of every OPTIONAL / type-relevant constructor argument"""
+        out, stack, seen_ids = set(), [root], set()
+        while stack:
+            x = stack.pop()
+            if id(x) in seen_ids:
+                continue
+            seen_ids.add(id(x))
+            if isinstance(x, (ir.TableIR, ir.MatrixIR)):
+                cls = type(x).__name__
+                extra = ''
+                if cls in ('TableIntervalJoin', 'MatrixAnnotateRowsTable'):
+                    extra = f'(product={x.product})'
+                elif cls in ('TableKeyBy', 'MatrixKeyRowsBy'):
+                    extra = f'(is_sorted={x.is_sorted},empty={not x.keys})'
+                elif cls == 'MatrixMapCols':
+                    extra = '(new_key=None)' if x.new_key is None else f'(new_key,empty={not x.new_key})'
+                elif cls == 'TableJoin':
+                    extra = f'({x.join_type},partial_key={x.join_key < len(x.right.typ.row_key)})'
+                elif cls == 'MatrixUnionCols':
+                    extra = f'({x.join_type})'
+                elif cls in ('TableFilterIntervals', 'MatrixFilterIntervals'):
+                    extra = f'(keep={x.keep})'
+                elif cls in ('TableRepartition', 'MatrixRepartition'):
+                    extra = f'(strategy={x.strategy})'
+                elif cls in ('TableExplode', 'MatrixExplodeRows', 'MatrixExplodeCols'):
+                    extra = f'(path_len={len(x.path)})'
+                elif cls in ('TableToTableApply', 'MatrixToMatrixApply'):
+                    extra = f'({x.config.get("name")})'
+                out.add(cls + extra)
+            for ch in x.children:
+                if isinstance(ch, ir.BaseIR):
+                    stack.append(ch)
+        return out
+
+    def origin_of(root):
+        """a rebuilt pipeline that contains one of the three rewrites KNOWN (by reading and by witness, see the validation record) to leak a
+        uid field into the type: every symptom seen in such a pipeline is attributed to that originating mechanism (DESIGN 3.4)"""
+        stack, seen_ids = [root], set()
+        is_uid = lambda f: f.startswith('__') and 'uid' in f  # noqa: E731
+        while stack:
+            x = stack.pop()
+            if id(x) in seen_ids:
+                continue
+            seen_ids.add(id(x))
+            cls = type(x).__name__
+            try:
+                if cls == 'TableMultiWayZipJoin':
+                    c0 = x.children[0].typ
+                    if any(is_uid(f) for f in c0.row_type if f not in c0.row_key):
+                        return 'sent-ir/uid-field-leaks-into-reported-type/TableMultiWayZipJoin'
+                elif cls == 'MatrixEntriesTable' and any(is_uid(f) for f in x.child.typ.col_type):
+                    return 'sent-ir/uid-field-leaks-into-reported-type/MatrixEntriesTable'
+                elif cls == 'TableKeyByAndAggregate' and x.new_key.uses_randomness:
+                    return 'sent-ir/TableKeyByAndAggregate-random-key-rewrite-replaces-aggregations'
+            except Exception:
+                pass
+            for ch in x.children:
+                if isinstance(ch, ir.BaseIR):
+                    stack.append(ch)
+        return None
+
+    def attribute(origin, start):
+        if origin is not None:
+            for j in range(start, len(hook.pending)):
+                k, w, wit = hook.pending[j]
+                hook.pending[j] = (origin, f'{w} [symptom: {k}]', wit)
+
+    def leak_key(got, want, generic):
+        """a disagreement that disappears once every uid-named field is removed (recursively) is a uid field LEAKED by the rewrite"""
+        try:
+            leak = canon(hl, _without_uid_fields(hl, got)) == canon(hl, _without_uid_fields(hl, want))
+        except Exception:
+            leak = False
+        if not leak:
+            return generic
+        ctx.count('sent_uid_field_leaks')
+        return 'sent-ir/uid-field-leaks-into-reported-type'
+
+    def sent_judge(sent, reported, added, what, variant, random_pipeline):
+        """`sent`: the relational IR as rebuilt for an action; `reported`: the RefT / RefM the front end reports for the same table;
+        `added`: {part: uid field names the action asked for}"""
+        kind = 'table' if isinstance(reported, RefT) else 'matrix'
+        start = len(hook.pending)
+        try:
+            ref = et_sent.rtype(sent)
+        except RecursionError:
+            ctx.count('walk_recursion')
+            return
+        for cls, parts, msg, node in et_sent.take_findings():
+            try:
+                shown = str(node)[:1200]
+            except Exception as err:
+                shown = f'<{type(node).__name__}: not renderable: {type(err).__name__}>'
+            key = f'sent-ir/relational/{cls}-engine-rule-rejects-rebuilt-node' if parts == ['rejected'] else f'sent-ir/relational/{cls}-type-differs-from-engine-rule'
+            hook.pending.append((key, f'after {what}, IR rebuilt for an action ({variant}): {msg}', {'node': shown, 'differing': parts, 'variant': variant}))
+        if ref is None:
+            ctx.count('sent_root_type_unavailable')
+        else:
+            ctx.count('contract_sent_root_type')
+            ctx.count(f'contract_sent_root_type:{kind}:{variant}')
+            if random_pipeline:
+                ctx.count('contract_sent_root_type_random_pipeline')
+                ctx.count(f'contract_sent_root_type_random_pipeline:{kind}:{variant}')
+            bad = []
+            keys = set()
+            for part in ref._fields:
+                a, b = getattr(ref, part), getattr(reported, part)
+                if part in ('key', 'row_key', 'col_key'):
+                    if list(a) != list(b):
+                        bad.append(f'{part}: the rebuilt IR implies {list(a)}, reported {list(b)}')
+                        keys.add(f'sent-ir/{kind}-type-differs-from-reported-type')
+                else:
+                    # an action that asked for uids addresses the fields BY NAME (aggregation queries); the rewrite may leave further
+                    # uid fields of its own in place there (MatrixEntriesTable keeps `__col_uid` next to the requested row uid):
+                    # the reported fields must be there, in the reported order, with the reported types.  Without uids: exactly.
+                    want = added.get(part, ())
+                    extra = [f for f in a if f not in b] if any(added.values()) else []
+                    for f in extra:
+                        if f not in want:
+                            ctx.seen('sent_unrequested_extra_fields_in_uid_variants', f'{kind}.{part}: ' + f.rstrip('0123456789'))
+                    missing = [u for u in want if u not in a]
+                    stripped = hl.tstruct(**{f: ty for f, ty in a.items() if f not in extra})
+                    if missing:
+                        bad.append(f'{part}: the requested uid field {missing} is not in {str(a)[:300]}')
+                        keys.add(f'sent-ir/{kind}-type-differs-from-reported-type')
+                    if canon(hl, stripped) != canon(hl, b):
+                        bad.append(f'{part}: the rebuilt IR implies {str(stripped)[:500]}, reported {str(b)[:500]}')
+                        keys.add(leak_key(stripped, b, f'sent-ir/{kind}-type-differs-from-reported-type'))
+            if bad:
+                try:
+                    shown = str(sent)[:2500]
+                except Exception as err:
+                    shown = f'<not renderable: {type(err).__name__}>'
+                generic = f'sent-ir/{kind}-type-differs-from-reported-type'
+                hook.pending.append((generic if generic in keys or len(keys) != 1 else next(iter(keys)),
+                                     f'after {what}: the IR rebuilt for an action ({variant}) implies another type than the front end reports -- ' + '; '.join(bad),
+                                     {'variant': variant, 'sent_ir': shown}))
+        w = Walker(sctx, hl, sent=True)
+        try:
+            w.walk(sent)
+        except RecursionError:
+            ctx.count('walk_recursion')
+        for key, msg, node in w.problems[:5]:
+            hook.pending.append(('sent-ir/' + key, f'after {what}, IR rebuilt for an action ({variant}): {msg}', {'variant': variant, 'node': str(node)[:1200]}))
+        attribute(origin_of(sent), start)
+
+    def rebuilt(label, f):
+        """run one `handle_randomness` entry point; a refusal (FatalError: 'does not support randomness in consumers') or a crash of the
+        rewrite is not a type disagreement: counted, not judged"""
+        try:
+            return f()
+        except BackendUnavailable:
+            ctx.count('sent_rewrite_needs_engine')
+            ctx.seen('sent_rewrite_needs_engine_at', label)
+        except FatalError:
+            ctx.count('sent_rewrite_refused')
+        except AssertionError as err:
+            ex = traceback.extract_tb(err.__traceback__)
+            ctx.count('sent_rewrite_assertion')
+            ctx.seen('sent_rewrite_assertions', (ex[-1].name + ': ' + (ex[-1].line or '').strip())[:110])
+        except REJECT as err:
+            ex = traceback.extract_tb(err.__traceback__)
+            ctx.count('sent_rewrite_raised')
+            ctx.seen('sent_rewrite_raises', f'{label}: {type(err).__name__} at {ex[-1].name}: {(ex[-1].line or "").strip()}'[:130])
+        except RecursionError:
+            ctx.count('recursion')
+        return None
+
+    def sent_check_table(t, what):
+        tir = t._tir
+        rep = RefT(t.row.dtype, list(t.key), t.globals.dtype)
+        rnd = tir.uses_randomness
+        if rnd:
+            ctx.count('sent_random_pipelines')
+            for k in node_kinds(tir):
+                ctx.seen('sent_random_pipeline_node_kinds', k)
+                ctx.count('sent_random_pipeline_node:' + k)
+        # (a) collect / count / write / globals
+        coll = rebuilt('TableCollect', lambda: ir.TableCollect(tir))
+        if coll is not None:
+            if coll.child is tir:
+                ctx.count('sent_identical_to_emitted')       # no randomness: nothing rebuilt, M6 has judged this tree already
+            else:
+                sent_judge(coll.child, rep, {}, what, 'no-uid', rnd)
+                ctx.count('contract_sent_action_result_type')
+                got = rebuilt('TableCollect.typ', lambda: coll.typ)
+                want = hl.tstruct(rows=hl.tarray(t.row.dtype), **{'global': t.globals.dtype})
+                if got is not None and canon(hl, got) != canon(hl, want):
+                    start = len(hook.pending)
+                    hook.pending.append((leak_key(got, want, 'sent-ir/action-result-type-differs-from-reported-type'),
+                                         f'after {what}: TableCollect of the rebuilt IR is typed {str(got)[:500]}, the table reports {str(want)[:500]}', {'variant': 'no-uid'}))
+                    attribute(origin_of(coll.child), start)
+        # (b) aggregate with a random query (row uids requested from the whole pipeline)
+        sent = rebuilt('handle_randomness(row uid)', lambda: tir.handle_randomness(default_row_uid))
+        if sent is not None:
+            sent_judge(sent, rep, {'row': (default_row_uid,)}, what, 'row-uid', rnd)
+
+    def sent_check_matrix(mt, what):
+        mir = mt._mir
+        rep = RefM(mt.globals.dtype, list(mt.col_key), mt.col.dtype, list(mt.row_key), mt.row.dtype, mt.entry.dtype)
+        rnd = mir.uses_randomness
+        if rnd:
+            ctx.count('sent_random_pipelines')
+            for k in node_kinds(mir):
+                ctx.seen('sent_random_pipeline_node_kinds', k)
+                ctx.count('sent_random_pipeline_node:' + k)
+        for variant, ru, cu in (('no-uid', None, None), ('row+col-uid', default_row_uid, default_col_uid), ('row-uid', default_row_uid, None), ('col-uid', None, default_col_uid)):
+            sent = rebuilt(f'handle_randomness({variant})', lambda: mir.handle_randomness(ru, cu))
+            if sent is None:
+                continue
+            if sent is mir:
+                ctx.count('sent_identical_to_emitted')
+                continue
+            sent_judge(sent, rep, {'row': (ru,) if ru else (), 'col': (cu,) if cu else ()}, what, variant, rnd)
 
     def flush(sample, key, info):
         n = hook.derivational
@@ -933,6 +1322,7 @@ def run(ctx):
         if list(t.row.dtype)[:len(t.key)] != list(t.key):
             ctx.count('table_states_with_key_not_leading')         # layouts in which field ORDER rules can show
         engine_check(t._tir, RefT(t.row.dtype, list(t.key), t.globals.dtype), what)
+        sent_check_table(t, what)
         if m is not None:
             # field ORDER inside row / globals is not part of what the methods promise (joins, drops ... move key fields first)
             for lab, a, b in (('row', _normd(hl, t.row.dtype), _normd(hl, m.row)), ('globals', _normd(hl, t.globals.dtype), _normd(hl, m.g)), ('key', list(t.key), list(m.key))):
@@ -970,20 +1360,79 @@ def run(ctx):
         t = hl.Table.parallelize(rows, schema=st, key=key, globals=gl)
         return t, TModel(gm, dict(st.items()), key or []), 'parallelize'
 
-    N = ctx.pick(120, 1200)
-    for i, rng in ctx.cases(N, 'table'):
+    def make_other(rng, kt0, wide):
+        """a small table keyed by one field of type `kt0` (the right side of joins / the table that is indexed); in the wide workload
+        it sometimes carries seeded randomness itself (the rewrite has to rebuild the RIGHT side of the join too)"""
+        other = hl.utils.range_table(5)
+        if kt0 == hl.tint32:
+            other = other.annotate(jv=hl.str(other.idx), jw=hl.float64(other.idx))
+        elif kt0 == hl.tstr:
+            other = other.key_by(ks=hl.str(other.idx)).annotate(jw=[1.5]).drop('idx')
+        else:
+            other = other.key_by(kl=hl.int64(other.idx)).annotate(jw=hl.struct(z=1))
+        if wide:
+            r = rng.random()
+            if r < 0.25:
+                other = other.annotate(jr=hl.rand_unif(0.0, 1.0))
+            elif r < 0.4:
+                other = other.filter(hl.rand_bool(0.8))
+            elif r < 0.5:
+                other = other.annotate_globals(og=hl.rand_int32(4)).select_globals()
+        return other
+
+    def interval_table(rng):
+        """a table whose FIRST key field is an interval<int32> (sometimes followed by a second key field), 0-2 value fields in a row
+        order that may put values before keys, sometimes carrying seeded randomness"""
+        from hail.utils import Interval, Struct
+
+        ft = {'interval': hl.tinterval(hl.tint32), 'gene': hl.tstr, 'score': hl.tfloat64, 'tag': hl.tint32}
+        vals = rng.choice([['gene', 'score'], ['gene'], ['score', 'gene'], [], ['tag'], ['gene', 'score']])
+        key = ['interval'] + (['tag'] if 'tag' not in vals and rng.random() < 0.25 else [])
+        names = (vals + key) if rng.random() < 0.3 else (key + vals)
+        schema = hl.tstruct(**{n: ft[n] for n in names})
+        fv = {'gene': 'A', 'score': 2.5, 'tag': 7}
+        rows = [Struct(**{n: (Interval(a, a + w, point_type=hl.tint32) if n == 'interval' else fv[n]) for n in names}) for a, w in ((1, 3), (3, 5), (0, 9))[: rng.randint(0, 3)]]
+        iv = hl.Table.parallelize(rows, schema=schema, key=key)
+        r = rng.random()
+        if r < 0.25:
+            iv = iv.annotate(rr=hl.rand_unif(0.0, 1.0))
+        elif r < 0.4:
+            iv = iv.filter(hl.rand_bool(0.9))
+        return iv
+
+    TABLE_OPS = ['annotate', 'annotate', 'annotate', 'select', 'drop', 'rename', 'transmute', 'key_by', 'key_by_expr', 'filter', 'globals',
+                 'group_by', 'join', 'index', 'explode', 'union', 'order_by', 'add_index', 'collect_by_key', 'head', 'distinct', 'select_globals',
+                 'agg_expr', 'collect_expr', 'annotate_scan', 'key_by_none']
+    # the wide workload: every op above (with seeded randomness in the generated expressions about half of the time) plus the relational
+    # node kinds / optional constructor arguments the plain workload never builds
+    TABLE_OPS_WIDE = TABLE_OPS + ['interval_index'] * 5 + ['join', 'index', 'index', 'filter', 'filter', 'group_by', 'tail', 'naive_coalesce', 'sample', 'sample', 'filter_intervals',
+                                  'multi_way_zip_join', 'semi_anti_join', 'map_partitions', 'filter_partitions', 'key_by_sorted', 'key_by_sorted', 'union_rand', 'from_matrix']
+
+    def table_case(i, rng, wide):
+        phase = 'table-sent' if wide else 'table'
         et.reset()
+        et_sent.reset()
         ok, src = guarded('table_source', lambda: table_source(rng))
         if not ok:
-            flush(None, ('table-source-rejected', i), {})
-            continue
+            flush(None, (phase + '-source-rejected', i), {})
+            return
         t, m, what = src
         trace = [what]
         check_table(t, m, what)
-        for _ in range(rng.randint(2, 7)):
-            op = rng.choice(['annotate', 'annotate', 'annotate', 'select', 'drop', 'rename', 'transmute', 'key_by', 'key_by_expr', 'filter', 'globals',
-                             'group_by', 'join', 'index', 'explode', 'union', 'order_by', 'add_index', 'collect_by_key', 'head', 'distinct', 'select_globals',
-                             'agg_expr', 'collect_expr', 'annotate_scan', 'key_by_none'])
+        for _ in range(rng.randint(3, 8) if wide else rng.randint(2, 7)):
+            op = rng.choice(TABLE_OPS_WIDE if wide else TABLE_OPS)
+            rz = wide and rng.random() < 0.5
+
+            def R(e, rz=rz):
+                """in the wide workload: the same expression with seeded randomness in it (same type)"""
+                if not rz:
+                    return e
+                ok, r = guarded('randomized', lambda: randomized(rng, hl, e))
+                if ok and r.dtype == e.dtype:
+                    ctx.count('randomized_expressions')
+                    return r
+                return e
+
             S = row_scope(t)
             nonkey = [f for f in m.row if f not in m.key]
             res = None
@@ -994,7 +1443,7 @@ def run(ctx):
                     name = rng.choice(nonkey) if nonkey and rng.random() < 0.25 else fresh_name(rng, set(m.row) | set(m.g) | set(kw))
                     ok, e = guarded('gen', lambda: gen_field_expr(rng, t, S))
                     if ok:
-                        kw[name] = e
+                        kw[name] = R(e)
                         m2.row[name] = e.dtype
                 if kw:
                     res = guarded(f'annotate', lambda: t.annotate(**kw))
@@ -1004,6 +1453,9 @@ def run(ctx):
                     name = fresh_name(rng, set(m.row) | set(m.g))
                     sc = rng.choice([lambda: hl.scan.sum(e), lambda: hl.scan.count(), lambda: hl.scan.collect(e), lambda: hl.scan.max(e), lambda: hl.scan.mean(e),
                                      lambda: hl.scan.filter(e > 1, hl.scan.count()) + hl.scan.count_where(e > 0)])
+                    if rz:
+                        ra = random_aggs(rng, hl, e, scan=True)
+                        sc = ra[rng.choice(sorted(ra))]
                     ok, se = guarded('scan', sc)
                     if ok:
                         m2.row[name] = se.dtype
@@ -1016,7 +1468,7 @@ def run(ctx):
                 m2.row.update({k: m.row[k] for k in keep})
                 if ok:
                     m2.row[name] = e.dtype
-                    res = guarded('select', lambda: t.select(*keep, **{name: e}))
+                    res = guarded('select', lambda: t.select(*keep, **{name: R(e)}))
                 else:
                     res = guarded('select', lambda: t.select(*keep))
             elif op == 'drop' and nonkey:
@@ -1052,18 +1504,18 @@ def run(ctx):
                     nn = fresh_name(rng, set(m.row) | set(m.g), 'k')
                     m2.row[nn] = e.dtype
                     m2.key = [nn]
-                    res = guarded('key_by(expr)', lambda: t.key_by(**{nn: e}))
+                    res = guarded('key_by(expr)', lambda: t.key_by(**{nn: R(e)}))
             elif op == 'filter':
                 ok, e = guarded('gen', lambda: ExprGen(rng, hl, max_depth=5).gen('bool', 3, S))
                 if ok:
-                    res = guarded('filter', lambda: t.filter(e, keep=rng.random() < 0.7))
+                    res = guarded('filter', lambda: t.filter(R(e), keep=rng.random() < 0.7))
             elif op == 'globals':
                 Sg = row_scope(t, globals_only=True)
                 ok, e = guarded('gen', lambda: gen_field_expr(rng, t, Sg))
                 if ok:
                     nn = fresh_name(rng, set(m.row) | set(m.g), 'g')
                     m2.g[nn] = e.dtype
-                    res = guarded('annotate_globals', lambda: t.annotate_globals(**{nn: e}))
+                    res = guarded('annotate_globals', lambda: t.annotate_globals(**{nn: R(e)}))
             elif op == 'select_globals' and m.g:
                 keep = rng.sample(list(m.g), rng.randint(0, len(m.g)))
                 m2.g = {k: m.g[k] for k in keep}
@@ -1077,21 +1529,33 @@ def run(ctx):
                             'st': hl.agg.stats(ae), 'cs': hl.agg.collect_as_set(ke), 'tk': hl.agg.take(ae, 2), 'ct': hl.agg.counter(ke),
                             'fr': hl.agg.fraction(ae > 1), 'ex': hl.agg.explode(lambda v: hl.agg.sum(v), hl.range(hl.int32(hl.min(hl.abs(ae), 3))))}
                     pick = rng.sample(sorted(aggs), rng.randint(1, 4))
+                    if rz:
+                        # randomness in the aggregations (TableKeyByAndAggregate / TableAggregateByKey rebuild `expr` around per-row
+                        # and per-group rng states) and / or in the key expression
+                        ra = random_aggs(rng, hl, ae)
+                        for a in rng.sample(sorted(ra), rng.randint(1, 2)):
+                            ok3, x = guarded('random agg', ra[a])
+                            if ok3:
+                                aggs[a] = x
+                                pick.append(a)
+                        if rng.random() < 0.3 and RANDOM_GROUP_KEY_IN_WORKLOAD:
+                            ke = R(ke)
                     kn = fresh_name(rng, set(pick), 'k')
                     m2.row = {kn: ke.dtype}
                     m2.row.update({a: aggs[a].dtype for a in pick})
                     m2.key = [kn]
-                    res = guarded('group_by.aggregate', lambda: t.group_by(**{kn: ke}).aggregate(**{a: aggs[a] for a in pick}))
+                    if wide and m.key and rng.random() < 0.3:
+                        # group by the table's own key fields: TableAggregateByKey instead of TableKeyByAndAggregate
+                        m2.row = {k: m.row[k] for k in m.key}
+                        m2.row.update({a: aggs[a].dtype for a in pick})
+                        m2.key = list(m.key)
+                        res = guarded('group_by(key).aggregate', lambda: t.group_by(*m.key).aggregate(**{a: aggs[a] for a in pick}))
+                    else:
+                        res = guarded('group_by.aggregate', lambda: t.group_by(**{kn: ke}).aggregate(**{a: aggs[a] for a in pick}))
             elif op in ('join', 'index') and m.key:
                 kt = [m.row[k] for k in m.key]
                 if len(kt) == 1 and kt[0] in (hl.tint32, hl.tstr, hl.tint64):
-                    other = hl.utils.range_table(5)
-                    if kt[0] == hl.tint32:
-                        other = other.annotate(jv=hl.str(other.idx), jw=hl.float64(other.idx))
-                    elif kt[0] == hl.tstr:
-                        other = other.key_by(ks=hl.str(other.idx)).annotate(jw=[1.5]).drop('idx')
-                    else:
-                        other = other.key_by(kl=hl.int64(other.idx)).annotate(jw=hl.struct(z=1))
+                    other = make_other(rng, kt[0], wide)
                     ovals = {f: ty for f, ty in other.row.dtype.items() if f not in list(other.key)}
                     if not (set(ovals) & (set(m.row) | set(m.g))):
                         if op == 'join':
@@ -1111,6 +1575,11 @@ def run(ctx):
                                                          f'Table.join({how}) row fields {list(r.row.dtype)} but TableJoin lays the row out as {exp}', {'op': 'join'}))
                                 return r
                             res = guarded('join', _join)
+                        elif wide and rng.random() < 0.35:
+                            # all_matches=True on a NON-interval key: collect_by_key(uid) on the right, then a distinct join
+                            nn = fresh_name(rng, set(m.row) | set(m.g), 'j')
+                            m2.row[nn] = hl.tarray(hl.tstruct(**ovals))
+                            res = guarded('index(all_matches)', lambda: t.annotate(**{nn: other.index(t[m.key[0]], all_matches=True)}))
                         else:
                             nn = fresh_name(rng, set(m.row) | set(m.g), 'j')
                             if rng.random() < 0.5:
@@ -1120,6 +1589,99 @@ def run(ctx):
                             else:
                                 m2.row[nn] = hl.tstruct(**ovals)
                                 res = guarded('index', lambda: t.annotate(**{nn: other[t.key]}))
+            elif op == 'interval_index':
+                # Table.index on a table whose first key field is an interval: TableIntervalJoin, product = all_matches
+                pts = [f for f, ty in m.row.items() if ty == hl.tint32]
+                ok, iv = guarded('interval_table', lambda: interval_table(rng))
+                if pts and ok:
+                    f = rng.choice(pts)
+                    product = rng.random() < 0.6
+                    ovals = {g: ty for g, ty in iv.row.dtype.items() if g not in list(iv.key)}
+                    jt = hl.tarray(hl.tstruct(**ovals)) if product else hl.tstruct(**ovals)
+                    how = rng.choice(['field', 'field', 'expr', 'rand_expr', 'key'])
+                    if how == 'key' and not (len(m.key) == 1 and m.row[m.key[0]] == hl.tint32):
+                        how = 'field'
+                    nn = fresh_name(rng, set(m.row) | set(m.g), 'j')
+                    use = rng.choice(['whole', 'whole', 'derived', 'both'])
+                    if use in ('whole', 'both'):
+                        m2.row[nn] = jt
+                    if use in ('derived', 'both'):
+                        m2.row[nn + 'n'] = hl.tint32 if product else hl.tbool
+
+                    def _ij(t=t, iv=iv, f=f, how=how, product=product, use=use, nn=nn):
+                        x = {'field': lambda: t[f], 'expr': lambda: t[f] + 1, 'rand_expr': lambda: t[f] + hl.rand_int32(3), 'key': lambda: t.key}[how]()
+                        j = iv.index(x, all_matches=product)
+                        kw = {}
+                        if use in ('whole', 'both'):
+                            kw[nn] = j
+                        if use in ('derived', 'both'):
+                            kw[nn + 'n'] = hl.len(j) if product else hl.is_defined(j)
+                        return t.annotate(**kw)
+
+                    res = guarded('interval_index', _ij)
+            elif op in ('tail', 'naive_coalesce', 'sample', 'filter_partitions', 'union_rand'):
+                f = {'tail': lambda: t.tail(rng.randint(0, 4)), 'naive_coalesce': lambda: t.naive_coalesce(rng.randint(1, 3)),
+                     'sample': lambda: t.sample(rng.choice([0.1, 0.5]), seed=rng.choice([None, 3])),
+                     'filter_partitions': lambda: t._filter_partitions([0], keep=rng.random() < 0.5),
+                     'union_rand': lambda: t.union(t.filter(hl.rand_bool(0.5)), t.head(2))}[op]
+                res = guarded(op, f)
+            elif op == 'filter_intervals' and m.key and m.row[m.key[0]] == hl.tint32:
+                # hl.filter_intervals evaluates its interval list on the backend and then emits exactly this node
+                from hail.utils import Interval, Struct
+
+                k0 = m.key[0]
+                ivs = [Interval(Struct(**{k0: a}), Struct(**{k0: b}), True, rng.random() < 0.5) for a, b in ((0, 3), (5, 9))[: rng.randint(1, 2)]]
+                keep = rng.random() < 0.5
+                res = guarded(op, lambda: hl.Table(ir.TableFilterIntervals(t._tir, ivs, hl.tstruct(**{k0: hl.tint32}), keep)))
+            elif op == 'multi_way_zip_join' and MULTI_WAY_ZIP_JOIN_IN_WORKLOAD and not ({'mw_data', 'mw_gl'} & (set(m.row) | set(m.g))):
+                m2.row = {k: m.row[k] for k in m.key}
+                m2.row['mw_data'] = hl.tarray(hl.tstruct(**{k: v for k, v in m.row.items() if k not in m.key}))
+                m2.g = {'mw_gl': hl.tarray(hl.tstruct(**m.g))}
+                others = [t] + [t.filter(hl.rand_bool(0.5)) if rng.random() < 0.5 else t for _k in range(rng.randint(0, 2))]
+                res = guarded(op, lambda: hl.Table.multi_way_zip_join(others, 'mw_data', 'mw_gl'))
+            elif op == 'semi_anti_join' and len(m.key) == 1 and m.row[m.key[0]] in (hl.tint32, hl.tstr, hl.tint64):
+                other = make_other(rng, m.row[m.key[0]], wide)
+                res = guarded(op, (lambda: t.semi_join(other)) if rng.random() < 0.5 else (lambda: t.anti_join(other)))
+            elif op == 'map_partitions':
+                nn = fresh_name(rng, set(m.row) | set(m.g), 'p')
+                m2.row[nn] = hl.tint32
+                res = guarded(op, lambda: t._map_partitions(lambda rows: rows.map(lambda r: r.annotate(**{nn: hl.int32(1)}))))
+            elif op == 'key_by_sorted' and m.row:
+                cand = [f for f, ty in m.row.items() if not isinstance(ty, (hl.tdict,))]
+                if cand and rng.random() < 0.6:
+                    ks = rng.sample(cand, rng.randint(1, min(2, len(cand))))
+                    m2.key = ks
+                    res = guarded(op, lambda: t._key_by_assert_sorted(*ks))
+                else:
+                    ok, e = guarded('gen', lambda: ExprGen(rng, hl, max_depth=5).gen(rng.choice(['i32', 'str', 'i64']), 3, S))
+                    if ok:
+                        nn = fresh_name(rng, set(m.row) | set(m.g), 'k')
+                        m2.row[nn] = e.dtype
+                        m2.key = [nn]
+                        res = guarded(op + '(expr)', lambda: t._key_by_assert_sorted(**{nn: R(e)}))
+            elif op == 'from_matrix':
+                # continue from a table view of a small matrix-table pipeline (MatrixRowsTable / MatrixColsTable / MatrixEntriesTable /
+                # CastMatrixToTable over matrix nodes that carry randomness): the table rewrite hands its uid request down into the matrix IR
+                def _fm():
+                    mt0 = hl.utils.range_matrix_table(3, 2)
+                    mt0 = mt0.annotate_entries(x=mt0.row_idx + mt0.col_idx + hl.rand_int32(3)) if rng.random() < 0.6 else mt0.annotate_entries(x=mt0.row_idx * mt0.col_idx)
+                    r = rng.random()
+                    if r < 0.25:
+                        mt0 = mt0.filter_rows(hl.rand_bool(0.5))
+                    elif r < 0.5:
+                        mt0 = mt0.annotate_cols(cr=hl.rand_unif(0.0, 1.0))
+                    elif r < 0.7:
+                        mt0 = mt0.annotate_rows(ra=hl.agg.filter(hl.rand_bool(0.5), hl.agg.sum(mt0.x)))
+                    elif r < 0.85:
+                        mt0 = mt0.filter_entries(hl.rand_bool(0.5))
+                    view = rng.choice(['rows', 'cols', 'entries', 'localize'] if ENTRIES_UNDER_RANDOMNESS_IN_WORKLOAD else ['rows', 'cols', 'localize', 'localize'])
+                    return view, {'rows': mt0.rows, 'cols': mt0.cols, 'entries': mt0.entries, 'localize': lambda: mt0.localize_entries('ents', 'colz')}[view]()
+                ok, vt = guarded(op, _fm)
+                if ok:
+                    view, t2 = vt
+                    m2 = TModel(dict(t2.globals.dtype.items()), dict(t2.row.dtype.items()), list(t2.key))
+                    res = (True, t2)
+                    op = op + ':' + view
             elif op == 'explode':
                 arrs = [f for f in nonkey if isinstance(m.row[f], (hl.tarray, hl.tset))]
                 if arrs:
@@ -1146,7 +1708,20 @@ def run(ctx):
                 res = guarded('distinct', lambda: t.distinct())
             elif op == 'agg_expr':
                 ok, ae = guarded('gen', lambda: ExprGen(rng, hl, max_depth=5).gen(rng.choice(['i32', 'f64', 'ai32']), 3, row_scope(t, allow_agg=False)))
-                if ok:
+                if ok and rz:
+                    ra = random_aggs(rng, hl, hl.int32(1))
+                    a = rng.choice(sorted(ra))
+                    ok, q = guarded('random agg', lambda: hl.struct(c=hl.agg.collect(R(ae)), n=hl.agg.count(), r=ra[a]()))
+                    if ok:
+                        ok, r = guarded('Table.aggregate(random query)', lambda: t.aggregate(q, _localize=False))
+                        if ok:
+                            ctx.count('contract_table_model')
+                            ctx.count('actions_with_random_query')
+                            if r.dtype != q.dtype:
+                                hook.pending.append(('table/aggregate-expression-type', f'Table.aggregate gives {r.dtype}, expected {q.dtype}', {}))
+                            finish_program(r._ir, False, 'table.aggregate(random query)', rewritten=True)
+                            trace.append('aggregate-random')
+                elif ok:
                     ok, r = guarded('Table.aggregate', lambda: t.aggregate(hl.struct(c=hl.agg.collect(ae), n=hl.agg.count()), _localize=False))
                     if ok:
                         ctx.count('contract_table_model')
@@ -1174,8 +1749,31 @@ def run(ctx):
             trace.append(op)
             ctx.seen('table_ops_accepted', op)
             check_table(t, m, op)
-        finish_program(t._tir, True, 'table')
-        flush({'ops': trace, 'type': str(t._tir.typ)[:300]}, ('table', tuple(trace), str(t._tir.typ)), {'ops': trace, 'table_type': str(t._tir.typ)[:800]})
+        finish_program(t._tir, True, phase)
+        if wide:
+            # the action nodes themselves, through the API where the API does not execute (what the backend decodes results with)
+            start = len(hook.pending)
+            ok, r = guarded('Table.collect', lambda: t.collect(_localize=False))
+            if ok:
+                ctx.count('contract_sent_action_result_type')
+                if canon(hl, r.dtype) != canon(hl, hl.tarray(t.row.dtype)):
+                    hook.pending.append((leak_key(r.dtype, hl.tarray(t.row.dtype), 'sent-ir/action-result-type-differs-from-reported-type'),
+                                         f'Table.collect(_localize=False) is typed {r.dtype}, the table reports rows of {t.row.dtype}', {}))
+                finish_program(r._ir, False, phase + '.collect')
+                attribute(origin_of(r._ir), start)
+            start = len(hook.pending)
+            ok, r = guarded('Table.index_globals', lambda: t.index_globals())
+            if ok:
+                finish_program(r._ir, False, phase + '.globals')
+                attribute(origin_of(r._ir), start)
+        flush({'ops': trace, 'type': str(t._tir.typ)[:300]}, (phase, tuple(trace), str(t._tir.typ)), {'ops': trace, 'table_type': str(t._tir.typ)[:800]})
+
+    N = ctx.pick(120, 1200)
+    for i, rng in ctx.cases(N, 'table'):
+        table_case(i, rng, False)
+    N = ctx.pick(110, 1100)
+    for i, rng in ctx.cases(N, 'table-sent'):
+        table_case(i, rng, True)
 
     # ---- phase matrix ---------------------------------------------------------------------------
     def mscope(mt, axis, allow_agg=True):
@@ -1207,6 +1805,7 @@ def run(ctx):
         if list(mt.col.dtype)[:len(mt.col_key)] != list(mt.col_key):
             ctx.count('matrix_states_with_col_key_not_leading')
         engine_check(mt._mir, RefM(mt.globals.dtype, list(mt.col_key), mt.col.dtype, list(mt.row_key), mt.row.dtype, mt.entry.dtype), what)
+        sent_check_matrix(mt, what)
         if m is not None:
             for lab, a, b in (('row', _normd(hl, mt.row.dtype), _normd(hl, m.row)), ('col', _normd(hl, mt.col.dtype), _normd(hl, m.col)),
                               ('entry', _normd(hl, mt.entry.dtype), _normd(hl, m.entry)), ('globals', _normd(hl, mt.globals.dtype), _normd(hl, m.g)),
@@ -1219,9 +1818,17 @@ def run(ctx):
 
     import copy
 
-    N = ctx.pick(80, 750)
-    for i, rng in ctx.cases(N, 'matrix'):
+    MATRIX_OPS = ['annotate_rows', 'annotate_cols', 'annotate_entries', 'annotate_entries', 'annotate_globals', 'select_rows', 'select_cols', 'select_entries',
+                  'drop', 'filter_rows', 'filter_cols', 'filter_entries', 'key_rows_by', 'key_cols_by', 'row_agg', 'col_agg', 'group_rows', 'group_cols',
+                  'explode_rows', 'rows', 'cols', 'entries', 'localize', 'agg_exprs', 'transmute_entries'] + (['union_cols'] if UNION_COLS_IN_WORKLOAD else [])
+    MATRIX_OPS_WIDE = MATRIX_OPS + ['rows_join'] * 4 + ['cols_join'] * 2 + ['entries_join', 'choose_cols', 'collect_cols_by_key', 'explode_cols', 'union_rows', 'distinct_by_row',
+                                    'head', 'tail', 'sample_rows', 'sample_cols', 'naive_coalesce', 'filter_partitions', 'filter_intervals', 'unfilter_entries', 'rename',
+                                    'unlocalize', 'add_index', 'filter_rows', 'filter_cols', 'filter_entries', 'row_agg', 'col_agg', 'annotate_cols', 'annotate_rows']
+
+    def matrix_case(i, rng, wide):
+        phase = 'matrix-sent' if wide else 'matrix'
         et.reset()
+        et_sent.reset()
         mt = hl.utils.range_matrix_table(rng.randint(0, 5), rng.randint(0, 4))
         m = MModel({}, {'row_idx': hl.tint32}, {'col_idx': hl.tint32}, {}, ['row_idx'], ['col_idx'])
         trace = []
@@ -1249,10 +1856,18 @@ def run(ctx):
                     trace.append(opname)
                     check_matrix(mt, m, opname)
         for _ in range(rng.randint(3, 8)):
-            op = rng.choice(['annotate_rows', 'annotate_cols', 'annotate_entries', 'annotate_entries', 'annotate_globals', 'select_rows', 'select_cols', 'select_entries',
-                             'drop', 'filter_rows', 'filter_cols', 'filter_entries', 'key_rows_by', 'key_cols_by', 'row_agg', 'col_agg', 'group_rows', 'group_cols',
-                             'explode_rows', 'rows', 'cols', 'entries', 'localize', 'agg_exprs', 'transmute_entries']
-                            + (['union_cols'] if UNION_COLS_IN_WORKLOAD else []))
+            op = rng.choice(MATRIX_OPS_WIDE if wide else MATRIX_OPS)
+            rz = wide and rng.random() < 0.5
+
+            def R(e, rz=rz):
+                if not rz:
+                    return e
+                ok, r = guarded('randomized', lambda: randomized(rng, hl, e))
+                if ok and r.dtype == e.dtype:
+                    ctx.count('randomized_expressions')
+                    return r
+                return e
+
             m2 = copy.deepcopy(m)
             used = set(m.row) | set(m.col) | set(m.entry) | set(m.g)
             res = None
@@ -1267,7 +1882,7 @@ def run(ctx):
                 if ok:
                     nn = fresh_name(rng, used)
                     {'row': m2.row, 'col': m2.col, 'entry': m2.entry, 'global': m2.g}[axis][nn] = e.dtype
-                    res = guarded(op, lambda: getattr(mt, op)(**{nn: e}))
+                    res = guarded(op, lambda: getattr(mt, op)(**{nn: R(e)}))
             elif op in ('select_rows', 'select_cols', 'select_entries'):
                 axis = {'select_rows': 'row', 'select_cols': 'col', 'select_entries': 'entry'}[op]
                 fields = {'row': m.row, 'col': m.col, 'entry': m.entry}[axis]
@@ -1281,7 +1896,7 @@ def run(ctx):
                 if ok:
                     nn = fresh_name(rng, used)
                     new[nn] = e.dtype
-                    kw[nn] = e
+                    kw[nn] = R(e)
                 if axis == 'row':
                     m2.row = new
                 elif axis == 'col':
@@ -1301,7 +1916,7 @@ def run(ctx):
                 axis = {'filter_rows': 'row', 'filter_cols': 'col', 'filter_entries': 'entry'}[op]
                 ok, e = gen_at(axis, ['bool'])
                 if ok:
-                    res = guarded(op, lambda: getattr(mt, op)(e))
+                    res = guarded(op, lambda: getattr(mt, op)(R(e)))
             elif op == 'key_rows_by':
                 cand = [f for f, ty in m.row.items() if ty in (hl.tint32, hl.tstr, hl.tfloat64, hl.tbool)]
                 if cand:
@@ -1330,6 +1945,10 @@ def run(ctx):
                     nn = fresh_name(rng, used)
                     ag = rng.choice([lambda: hl.agg.sum(e), lambda: hl.agg.collect(e), lambda: hl.agg.mean(e), lambda: hl.agg.count_where(e > 0),
                                      lambda: hl.struct(a=hl.agg.max(e), b=hl.agg.count())])
+                    if rz:
+                        # a random aggregation over the entries of a row / column: MatrixMapRows asks its child for COLUMN uids as well
+                        ra = random_aggs(rng, hl, e)
+                        ag = ra[rng.choice(sorted(ra))]
                     ok, ae = guarded('agg', ag)
                     if ok:
                         if op == 'row_agg':
@@ -1346,6 +1965,11 @@ def run(ctx):
                     kn = fresh_name(rng, used, 'k')
                     an = fresh_name(rng, used | {kn}, 'a')
                     ae = rng.choice([lambda: hl.agg.sum(e), lambda: hl.agg.collect(e), lambda: hl.agg.mean(e)])()
+                    if rz:
+                        ra = random_aggs(rng, hl, e)
+                        ok3, x = guarded('random agg', ra[rng.choice(sorted(ra))])
+                        if ok3:
+                            ae = x
                     m2.entry = {an: ae.dtype}
                     # half of the time the grouped axis gets aggregated fields of its own (key fields ++ aggregations: an ORDER
                     # the relational rule decides), via aggregate_rows / aggregate_cols ... aggregate_entries ... result()
@@ -1354,6 +1978,8 @@ def run(ctx):
                         axis_aggs[fresh_name(rng, used | {kn, an}, 'n')] = hl.agg.count()
                         if rng.random() < 0.5:
                             axis_aggs[fresh_name(rng, used | {kn, an} | set(axis_aggs), 'c')] = hl.agg.collect(ke)
+                        if rz and rng.random() < 0.6:
+                            axis_aggs[fresh_name(rng, used | {kn, an} | set(axis_aggs), 'q')] = hl.agg.filter(hl.rand_bool(0.5), hl.agg.count())
                     axis_types = {n: a.dtype for n, a in axis_aggs.items()}
                     if axis == 'row':
                         m2.row, m2.row_key = {kn: ke.dtype, **axis_types}, [kn]
@@ -1373,6 +1999,101 @@ def run(ctx):
                 if list(mt.row.dtype)[:len(mt.row_key)] != list(mt.row_key):
                     ctx.count('union_cols_with_row_key_not_leading')
                 res = guarded(op, lambda: mt.union_cols(mt, row_join_type=rng.choice(['inner', 'outer'])))
+            elif op in ('rows_join', 'cols_join', 'entries_join'):
+                axis = 'col' if op == 'cols_join' else 'row'
+                fields, keys = (m.col, m.col_key) if axis == 'col' else (m.row, m.row_key)
+                kind = rng.choice(['key', 'key', 'fk', 'interval', 'interval'] if op == 'rows_join' else ['key', 'key', 'fk'])
+                i32s = [f for f, ty in fields.items() if ty == hl.tint32]
+                nn = fresh_name(rng, used, 'j')
+                if kind == 'interval' and i32s:
+                    # MatrixAnnotateRowsTable with product = all_matches (an interval-keyed table indexed from the row axis)
+                    ok, iv = guarded('interval_table', lambda: interval_table(rng))
+                    if ok:
+                        f = rng.choice(i32s)
+                        product = rng.random() < 0.6
+                        ovals = {g: ty for g, ty in iv.row.dtype.items() if g not in list(iv.key)}
+                        m2.row[nn] = hl.tarray(hl.tstruct(**ovals)) if product else hl.tstruct(**ovals)
+                        plus = rng.random() < 0.3
+                        res = guarded(op + '(interval)', lambda: mt.annotate_rows(**{nn: iv.index((mt[f] + 1) if plus else mt[f], all_matches=product)}))
+                elif len(keys) == 1 and fields[keys[0]] in (hl.tint32, hl.tstr) and (kind == 'key' or i32s or fields[keys[0]] == hl.tstr):
+                    k0 = keys[0]
+                    other = make_other(rng, fields[k0], wide)
+                    ovals = {g: ty for g, ty in other.row.dtype.items() if g not in list(other.key)}
+                    f0 = rng.choice(sorted(ovals))
+                    whole = rng.random() < 0.5 and op != 'entries_join'
+                    jt = hl.tstruct(**ovals) if whole else ovals[f0]
+                    # 'key': the axis key itself (MatrixAnnotateRowsTable / MatrixAnnotateColsTable directly); 'fk': an expression of the
+                    # key's type (the foreign-key plans: a keyed side table + dict lookup for rows, index + TableJoin for cols)
+                    if kind == 'key':
+                        ix = lambda: (mt.col_key if axis == 'col' else mt.row_key)  # noqa: E731
+                    elif fields[k0] == hl.tstr:
+                        ix = lambda: mt[k0] + ''  # noqa: E731
+                    else:
+                        ix = lambda: mt[k0] + 0  # noqa: E731
+                    if not set(ovals) & used:
+                        if op == 'rows_join':
+                            m2.row[nn] = jt
+                            res = guarded(op + f'({kind})', lambda: mt.annotate_rows(**{nn: other[ix()] if whole else other[ix()][f0]}))
+                        elif op == 'cols_join':
+                            m2.col[nn] = jt
+                            res = guarded(op + f'({kind})', lambda: mt.annotate_cols(**{nn: other[ix()] if whole else other[ix()][f0]}))
+                        else:
+                            m2.entry[nn] = jt
+                            res = guarded(op + f'({kind})', lambda: mt.annotate_entries(**{nn: other[ix()][f0]}))
+            elif op in ('distinct_by_row', 'head', 'tail', 'sample_rows', 'sample_cols', 'naive_coalesce', 'filter_partitions', 'unfilter_entries', 'union_rows', 'choose_cols'):
+                f = {'distinct_by_row': lambda: mt.distinct_by_row(), 'head': lambda: mt.head(rng.choice([None, 2]), rng.choice([None, 1, 2])) if rng.random() < 0.8 else mt.head(2),
+                     'tail': lambda: mt.tail(rng.choice([None, 2]), rng.choice([None, 1, 2])) if rng.random() < 0.8 else mt.tail(2),
+                     'sample_rows': lambda: mt.sample_rows(0.5, seed=rng.choice([None, 4])), 'sample_cols': lambda: mt.sample_cols(0.5, seed=rng.choice([None, 4])),
+                     'naive_coalesce': lambda: mt.naive_coalesce(rng.randint(1, 3)), 'filter_partitions': lambda: mt._filter_partitions([0], keep=rng.random() < 0.5),
+                     'unfilter_entries': lambda: mt.unfilter_entries(),
+                     # (_check_cols=False: the column comparison is evaluated on the backend; choose_cols counts the columns on the backend
+                     #  and then emits exactly this node)
+                     'union_rows': lambda: hl.MatrixTable.union_rows(mt, mt.filter_rows(hl.rand_bool(0.5)) if rng.random() < 0.5 else mt, *([mt] if rng.random() < 0.3 else []), _check_cols=False),
+                     'choose_cols': lambda: hl.MatrixTable(ir.MatrixChooseCols(mt._mir, [0, 0] if rng.random() < 0.5 else [0]))}[op]
+                res = guarded(op, f)
+            elif op == 'filter_intervals' and m.row_key and m.row[m.row_key[0]] == hl.tint32:
+                from hail.utils import Interval, Struct
+
+                k0 = m.row_key[0]
+                ivs = [Interval(Struct(**{k0: a}), Struct(**{k0: b}), True, rng.random() < 0.5) for a, b in ((0, 3), (5, 9))[: rng.randint(1, 2)]]
+                keep = rng.random() < 0.5
+                res = guarded(op, lambda: hl.MatrixTable(ir.MatrixFilterIntervals(mt._mir, ivs, hl.tstruct(**{k0: hl.tint32}), keep)))
+            elif op == 'collect_cols_by_key':
+                m2.col = {k: (v if k in m.col_key else hl.tarray(v)) for k, v in m.col.items()}
+                m2.entry = {k: hl.tarray(v) for k, v in m.entry.items()}
+                res = guarded(op, lambda: mt.collect_cols_by_key())
+            elif op == 'explode_cols':
+                arrs = [f for f in m.col if f not in m.col_key and isinstance(m.col[f], hl.tarray)]
+                if arrs:
+                    f = rng.choice(arrs)
+                    m2.col[f] = m.col[f].element_type
+                    res = guarded(op, lambda: mt.explode_cols(f))
+            elif op == 'rename':
+                cand = list(m.row) + list(m.col) + list(m.entry) + list(m.g)
+                if cand:
+                    f = rng.choice(cand)
+                    nn = fresh_name(rng, used, 'r')
+                    ren = lambda d: {(nn if k == f else k): v for k, v in d.items()}  # noqa: E731
+                    m2.row, m2.col, m2.entry, m2.g = ren(m.row), ren(m.col), ren(m.entry), ren(m.g)
+                    m2.row_key = [nn if k == f else k for k in m.row_key]
+                    m2.col_key = [nn if k == f else k for k in m.col_key]
+                    res = guarded(op, lambda: mt.rename({f: nn}))
+            elif op == 'unlocalize' and not ({'ents', 'colz'} & used):
+                # localize_entries -> (a table op that may carry randomness) -> _unlocalize_entries: CastTableToMatrix over CastMatrixToTable
+                def _unloc(mt=mt):
+                    tt = mt.localize_entries('ents', 'colz')
+                    if rng.random() < 0.5:
+                        tt = tt.filter(hl.rand_bool(0.5))
+                    return tt._unlocalize_entries('ents', 'colz', list(mt.col_key))
+                res = guarded(op, _unloc)
+            elif op == 'add_index':
+                nn = fresh_name(rng, used, 'i')
+                if rng.random() < 0.5:
+                    m2.row[nn] = hl.tint64
+                    res = guarded(op + '(row)', lambda: mt.add_row_index(nn))
+                else:
+                    m2.col[nn] = hl.tint64
+                    res = guarded(op + '(col)', lambda: mt.add_col_index(nn))
             elif op == 'explode_rows':
                 arrs = [f for f in m.row if f not in m.row_key and isinstance(m.row[f], hl.tarray)]
                 if arrs:
@@ -1419,7 +2140,19 @@ def run(ctx):
                 ok2, er = gen_at('row', ['i32', 'f64'], allow_agg=False)
                 ok3, ec = gen_at('col', ['i32', 'str'], allow_agg=False)
                 for okk, ee, meth in ((ok, e, 'aggregate_entries'), (ok2, er, 'aggregate_rows'), (ok3, ec, 'aggregate_cols')):
-                    if okk:
+                    if okk and rz:
+                        ra = random_aggs(rng, hl, hl.int32(1))
+                        a = rng.choice(sorted(ra))
+                        okq, q = guarded('random agg', lambda: hl.struct(c=hl.agg.collect(ee), n=hl.agg.count(), r=ra[a]()))
+                        if okq:
+                            okr, r = guarded(meth + '(random query)', lambda: getattr(mt, meth)(q, _localize=False))
+                            if okr:
+                                ctx.count('contract_matrix_model')
+                                ctx.count('actions_with_random_query')
+                                if r.dtype != q.dtype:
+                                    hook.pending.append((f'matrix/{meth}-expression-type', f'{meth} gives {r.dtype}, expected {q.dtype}', {}))
+                                finish_program(r._ir, False, 'matrix.' + meth + '(random query)', rewritten=True)
+                    elif okk:
                         okr, r = guarded(meth, lambda: getattr(mt, meth)(hl.struct(c=hl.agg.collect(ee), n=hl.agg.count()), _localize=False))
                         if okr:
                             ctx.count('contract_matrix_model')
@@ -1438,10 +2171,18 @@ def run(ctx):
             trace.append(op)
             ctx.seen('matrix_ops_accepted', op)
             check_matrix(mt, m, op)
-        finish_program(mt._mir, True, 'matrix')
-        flush({'ops': trace, 'type': str(mt._mir.typ)[:300]}, ('matrix', tuple(trace), str(mt._mir.typ)), {'ops': trace, 'matrix_type': str(mt._mir.typ)[:800]})
+        finish_program(mt._mir, True, phase)
+        flush({'ops': trace, 'type': str(mt._mir.typ)[:300]}, (phase, tuple(trace), str(mt._mir.typ)), {'ops': trace, 'matrix_type': str(mt._mir.typ)[:800]})
+
+    N = ctx.pick(80, 750)
+    for i, rng in ctx.cases(N, 'matrix'):
+        matrix_case(i, rng, False)
+    N = ctx.pick(70, 650)
+    for i, rng in ctx.cases(N, 'matrix-sent'):
+        matrix_case(i, rng, True)
 
     hook.uninstall()
+    del backend.matrix_type
 
 
 def _plain(v):
